@@ -105,6 +105,11 @@ func runC02(r *core.Run) {
 			}
 		}
 		for i := 0; i < nops && r.Violations() < 20; i++ {
+			if i == 0 || i == nops/2 {
+				// directed floor: a pending melt polled through six failing status lookups, then the payment
+				// succeeds (first time) / fails (second time)
+				s.DirectedAmbiguousPolls(6, i == 0)
+			}
 			s.RandomOp(cfg)
 		}
 		for k, v := range s.Stats {
